@@ -40,6 +40,8 @@ def probes_for(coords, bounded, rng, n_idx, dense):
         step = coords[1] - coords[0]
         ps += [coords[0] - k * step for k in (1, 2, 3)] + [coords[-1] + k * step for k in (1, 2)]
     ps += [-1.0, -2.0, -3.0, -0.5, -0.0, 0.0, float(n), float(n + 1), 1e9]
+    # far beyond every axis ("to the end"): at and past the limit of exactly representable whole numbers
+    ps += [2.0 ** 53 - 1, 2.0 ** 53, 2.0 ** 53 + 2, 1e16, 4e18, 2.0 ** 62]
     if dense:
         ps += [rng.uniform(coords[0], coords[-1]) if n else rng.uniform(-2, 2) for _ in range(dense)]
     return ps
@@ -60,10 +62,11 @@ def axis_case(kind, decl, coords, bounded, rng, tier):
     for s, e in pairs:
         for rm in ('incl', 'excl'):
             lines.append('pair %s %s %s' % (f64(s), f64(e), rm))
-    # vector overloads
+    # vector overloads: the same pairs, several to a call
     for rm in ('incl', 'excl'):
-        sel = pairs[:7]
-        lines.append('pairv %s %s %s' % (lst([f64(s) for s, _ in sel]), lst([f64(e) for _, e in sel]), rm))
+        for k in range(0, len(pairs), 8):
+            sel = pairs[k:k + 8]
+            lines.append('pairv %s %s %s' % (lst([f64(s) for s, _ in sel]), lst([f64(e) for _, e in sel]), rm))
     lines.append('pairv %s %s incl' % (lst([f64(0.0)]), lst([])))
     # coordinate function itself
     for i in ([0, 1, 2, 3, 7, 10, 99, 1000, 9999] if kind == 'sampled' else list(range(min(len(coords), 5)))):
@@ -114,6 +117,14 @@ def cases(tier, seed, rng):
                 t = nxt(ticks[-1])
         decl = 'axis_range %s ~' % lst([f64(x) for x in ticks])
         out.append(axis_case('range', decl, ticks, True, rng, tier))
+        # the same axis as an alias of its array, and with the ticks REPLACED by another route than the handle that is asked
+        if k % 3 == 0 and len(ticks) >= 1:
+            other = sorted(set([t * 10.0 + 3.0 for t in ticks] + [ticks[0] * 10.0 - 5.0]))
+            for first in ('axis_alias %s' % lst([f64(x) for x in ticks]), decl):
+                c1 = axis_case('range', first, ticks, True, rng, 'quick')
+                c2 = axis_case('range', 'axis_reticks %s' % lst([f64(x) for x in other]), other, True, rng, 'quick')
+                from vlib.runner import Case
+                out.append(Case(c1.lines[:120] + c2.lines[:200], 'gen:range-reticked'))
     # set / data-frame axes
     for kind in ('set', 'df'):
         for cnt in ([0, 1, 2, 5, 17] if quick else [0, 1, 2, 3, 5, 17, 64, 1000]):
